@@ -50,7 +50,12 @@ def run(ctx):
         cases = []
         english = ["2015-03-05 10:30:15", "March 5, 2015 10:30 PM", "5 March 2015", "Tue, 05 Mar 2015 10:30:15", "1.5 hours ago", "in 2 days",
                    "2 weeks ago at 10:30", "10.30", "13.11.2015", "1 year, 2 months ago", "15 March", "Monday", "10:30", "2015", "March 2015",
-                   "03/05/2015", "yesterday 14:05", "1500000000", "5 march 2015 at 7 pm", "12.5.2015 13.20", "2.5 minutes ago", "0.5 hours ago"]
+                   "03/05/2015", "yesterday 14:05", "1500000000", "5 march 2015 at 7 pm", "12.5.2015 13.20", "2.5 minutes ago", "0.5 hours ago",
+                   # digit groups that start with 0 and whose WIDTH matters (fractions, microseconds, two-digit and
+                   # zero-padded years, numeric UTC offsets, minutes)
+                   "1.05 hours ago", "2.005 minutes ago", "10:30:15.000123", "2015-03-05 10:30:15.012", "16.09.03 11:55", "03/05/07",
+                   "03 Feb 0099", "0099-03-05", "2015-03-05 10:30 +0000", "2015-03-05T17:57:39+00:00", "Tue, 05 Mar 2015 10:30:15 +0530",
+                   "00:05", "5 March 2015 00:00:07", "1500000000012", "in 0.25 hours", "01.02.03"]
         strings = [(s, ["en"]) for s in english] + [(s, None) for s in english[:8]]
         for L in W["order"]:
             w = W["langs"][L]
